@@ -5,6 +5,7 @@ call-by-id (raw client) / return-object / del+gc steps against a live daemon; ev
 serial; returned objects are classified at the caller (Proxy => call through it and check whose log moved; data =>
 must carry the object's own attributes)."""
 import gc
+import weakref
 import time
 
 from vlib import core, gen, fixture, wire
@@ -112,6 +113,14 @@ def gen_history(r, n):
             steps.append(("sibling", "reg-item" if a in (0, 1, 3) else "reg-other"))
         steps.append(("give", a, ser, False))
         steps.append(("give", "@reg", ser, r.random() < 0.3))
+    if r.random() < 0.12:
+        # a registration that FAILS half-way (the object cannot be weakly referenced), forced onto an id somebody else holds
+        a = r.choice([0, 1, 2, 3, 4])
+        steps.append(("register", a, "alpha", False, r.random() < 0.3))
+        steps.append(("register_noweak", "alpha", True))
+        steps.append(("call", "alpha"))
+        steps.append(("give", a, r.choice(fixture.SERIALIZERS), False))
+        steps.append(("listing",))
     for _ in range(n):
         k = r.random()
         target = r.choice([0, 1, 2, 3, 4, "A", "B"])
@@ -137,6 +146,8 @@ def gen_history(r, n):
             steps.append(("del", r.choice([0, 1, 2, 3, 4])))
         elif k < 0.97:
             steps.append(("sibling", r.choice(["reg-item", "reg-other", "unreg", "reg-item"])))
+        elif k < 0.985:
+            steps.append(("register_noweak", r.choice(["alpha", "beta", "gamma", None, "obj_fixed"]), r.random() < 0.7))
         else:
             steps.append(("listing",))
     steps.append(("listing",))
@@ -223,6 +234,18 @@ def run_history(fx, pool, hist, rec, hh):
                 if displaced is not None:
                     model.refresh(displaced)
                 displaced = None
+            elif kind == "register_noweak":
+                _, oid, force = st
+                obj = items.NoWeak(7)
+                try:
+                    d.register(obj, oid, force=force, weak=True)
+                    got = None
+                except Exception as x:
+                    got = type(x).__name__
+                if got is None:
+                    return fail("invalid-registration-accepted", "register(<object that cannot be weakly referenced>, %r, force=%r, weak=True) was accepted" % (oid, force), step)
+                rec.count("failed_registrations")
+                # a registration that failed has no effect: the table is compared below, after every step
             elif kind == "unregister_obj":
                 obj = obj_of(st[1])
                 ids_before = model.ids_of(obj)
@@ -440,6 +463,13 @@ def run_history(fx, pool, hist, rec, hh):
             for i in list(model.ids):
                 if d.objectsById.get(i) is None:
                     return fail(classify_missing(i, None, hist, step), "id %r should be registered but the daemon does not know it" % i, step)
+                cur, e = d.objectsById.get(i), deref(model.ids[i])
+                if isinstance(cur, weakref.ref):
+                    cur = cur()
+                if cur is not None and e is not None and cur is not e:
+                    cur = e = None
+                    return fail("id-maps-to-other-object", "the daemon's table holds another object under id %r than the one registered last under it" % i, step)
+                cur = e = None
             rec.count("steps_ok")
         return True
     finally:
